@@ -7,4 +7,6 @@ CONSTANTS
   MaxReq = 1000
   UnlockFirst = FALSE
   WithMap = FALSE
+  ClearOnHeld = FALSE
+  EmitAllUpTo = 100
   KeepHist = FALSE
